@@ -9,7 +9,7 @@ for m in sorted(glob.glob('/verif/seeded/*/meta.json')):
     rows.append("| %s | %s | %s. Needs: %s | %s |"%(j['id'], j['breaks_property'], what.replace('|','/'), j['needs_to_manifest'].replace('|','/'), j['caught_by'].replace('|','/')))
 seeded="\n".join(rows)
 rows=["| check | scenarios | wall s | scenarios / hour | distinct classes | verifier checks | faults fired (kinds) | schemes |","|---|---|---|---|---|---|---|---|"]
-for e in sorted(glob.glob('/verif/evidence/C*.json')):
+for e in sorted(glob.glob('/verif/evidence/C*.json'))+sorted(glob.glob('/verif/evidence/thorough/C*.json')):
     j=json.load(open(e)); c=j['coverage']
     rows.append("| %s (%s) | %d | %.0f | %d | %d | %d | %d (%d) | %d |"%(j['property_id'], j['tier'], c['evaluations'], j['wall_s'], c.get('runs_per_hour',0), c['distinct_nontrivial'], c.get('verifier_checks',0), sum(c.get('faults_fired',{}).values()), len(c.get('faults_fired',{})), len(c.get('runs_per_scheme',{}))))
 cost="\n".join(rows)
